@@ -577,12 +577,12 @@ func propC10(c *Ctx) {
 			}
 		}
 		c.writersTable("C10.R2", "ophost/keeper.Keeper", "NextL1Sequences", setOf("Set", "Remove", "Clear"),
-			[]string{"(ophost/keeper.Keeper).IncreaseNextL1Sequence", "(ophost/keeper.Keeper).InitGenesis"})
+			[]string{"(ophost/keeper.MsgServer).InitiateTokenDeposit", "(ophost.AppModule).InitGenesis"})
 		eff := c.W.BuildEffects()
 		o3 := c.Ob("C10.R2", "SetNextL1Sequence is called only from InitGenesis")
 		for _, f := range eff.Callers(c.Method(hostKeeper, "Keeper", "SetNextL1Sequence")) {
 			o3.Sites++
-			if fnShort(f) != "(ophost/keeper.Keeper).InitGenesis" {
+			if fnShort(f) != "(ophost.AppModule).InitGenesis" {
 				o3.Fail(c.W.Pos(f.Pos()), "called from "+fnShort(f), nil)
 			}
 		}
@@ -712,10 +712,10 @@ func propC10(c *Ctx) {
 		if o.Sites == 0 {
 			o.Fail(c.W.Pos(fn.Pos()), "no TokenPairs.Set reached", nil)
 		}
-		c.writersTable("C10.R4", "ophost/keeper.Keeper", "TokenPairs", setOf("Set", "Remove", "Clear"), []string{"(ophost/keeper.MsgServer).InitiateTokenDeposit", "(ophost/keeper.Keeper).InitGenesis"})
+		c.writersTable("C10.R4", "ophost/keeper.Keeper", "TokenPairs", setOf("Set", "Remove", "Clear"), []string{"(ophost/keeper.MsgServer).InitiateTokenDeposit", "(ophost.AppModule).InitGenesis"})
 		eff := c.W.BuildEffects()
 		o3 := c.Ob("C10.R4", "callers of SetTokenPair = {InitiateTokenDeposit, InitGenesis}")
-		al := setOf("(ophost/keeper.MsgServer).InitiateTokenDeposit", "(ophost/keeper.Keeper).InitGenesis")
+		al := setOf("(ophost/keeper.MsgServer).InitiateTokenDeposit", "(ophost.AppModule).InitGenesis")
 		for _, f := range eff.Callers(c.Method(hostKeeper, "Keeper", "SetTokenPair")) {
 			o3.Sites++
 			if !al[fnShort(f)] {
@@ -909,15 +909,11 @@ func propC11(c *Ctx) {
 
 	c.Rule("C11.R3", func() {
 		c.writersTable("C11.R3", "ophost/keeper.Keeper", "NextOutputIndexes", setOf("Set", "Remove", "Clear"),
-			[]string{"(ophost/keeper.Keeper).IncreaseNextOutputIndex", "(ophost/keeper.MsgServer).DeleteOutput", "(ophost/keeper.Keeper).InitGenesis"})
+			[]string{"(ophost/keeper.MsgServer).ProposeOutput", "(ophost/keeper.MsgServer).DeleteOutput", "(ophost.AppModule).InitGenesis"})
 		eff := c.W.BuildEffects()
-		o := c.Ob("C11.R3", "SetNextOutputIndex (a plain setter) is used only by InitGenesis and the DeleteOutput rollback (whose value C11.R2 decides); IncreaseNextOutputIndex only from ProposeOutput")
-		for _, f := range eff.Callers(c.Method(hostKeeper, "Keeper", "SetNextOutputIndex")) {
-			o.Sites++
-			if fnShort(f) != "(ophost/keeper.Keeper).InitGenesis" && fnShort(f) != "(ophost/keeper.MsgServer).DeleteOutput" {
-				o.Fail(c.W.Pos(f.Pos()), "SetNextOutputIndex called from "+fnShort(f), nil)
-			}
-		}
+		// SetNextOutputIndex is a plain setter (transparent wrapper): who writes through it is
+		// decided by the writers table above; C11.R2 decides the value of the rollback
+		o := c.Ob("C11.R3", "IncreaseNextOutputIndex is called only from ProposeOutput")
 		for _, f := range eff.Callers(c.Method(hostKeeper, "Keeper", "IncreaseNextOutputIndex")) {
 			o.Sites++
 			if fnShort(f) != "(ophost/keeper.MsgServer).ProposeOutput" {
